@@ -9,12 +9,13 @@ from harness import engine
 RATES = [[0, 1], [1, 4], [1, 1], [3, 2]]
 
 
-def op_case(skipped, rate, forced, ignore, discard, outcome, draw, order):
+def op_case(skipped, rate, forced, ignore, discard, outcome, draw, order, thread=False):
     script = []
     steps = (['force'] if forced else []) + (['discard'] if discard else [])
     if order:
         steps = steps[::-1]
-    script += [{'op': st} for st in steps]
+    # `thread`: the operation asks from a helper thread it starts and joins (the decision is the recorder's, not the thread's)
+    script += [dict({'op': st}, thread=True) if thread else {'op': st} for st in steps]
     script.append({'ret': {'op': 'ret', 'e': {'c': {'s': 'done'}}}, 'raise': {'op': 'raise', 't': 'ValueError'},
                    'interrupt': {'op': 'interrupt', 't': 'KeyboardInterrupt'}}[outcome])
     return {'cassette': 'memory',
@@ -60,6 +61,8 @@ class C17(RecorderProp):
             draws = [[0, 1], [r.numerator, r.denominator] if r <= 1 else [1, 1], [15, 16]]
             for d in draws:
                 cases.append(op_case(skipped, rate, forced, ignore, discard, outcome, d, order))
+                if (forced or discard) and outcome == 'ret':
+                    cases.append(op_case(skipped, rate, forced, ignore, discard, outcome, d, order, thread=True))
         # forcing must not leak: run 1 forces and is discarded (or just forces), run 2 is of a class that would be dropped
         for first in (['force', 'discard'], ['discard', 'force'], ['force']):
             for rate2, ignore2 in (([0, 1], False), ([1, 4], True), ([0, 1], True)):
@@ -99,9 +102,9 @@ class C17(RecorderProp):
                 if variant:
                     script += [{'op': 'call', 's': 'i0', 'x': 'x', 'args': [{'c': {'i': str(r2.randint(0, 9))}}]}]
                 if force:
-                    script.append({'op': 'force'})
+                    script.append({'op': 'force', 'thread': True} if r2.random() < 0.4 or (not variant and cls == 'OpB') else {'op': 'force'})
                 if discard:
-                    script.append({'op': 'discard'})
+                    script.append({'op': 'discard', 'thread': True} if r2.random() < 0.4 else {'op': 'discard'})
                 final = {'op': 'ret', 'e': {'c': None}}
                 if variant:
                     final = r2.choice([final, {'op': 'raise', 't': 'KeyError'}, {'op': 'interrupt', 't': 'SystemExit'}])
